@@ -128,6 +128,39 @@ pub fn cri_ops<const N: usize>(s: &mut dyn Src, r: &mut Report) {
    chk!(r, "crelindex_move_leaves_from_empty", cri_equals_model(&a, &Model::new()));
    chk!(r, "crelindex_move_to_is_old_to_plus_old_from", cri_equals_model(&b, &model_union(&mb, &ma)));
 }
+/// the combined total+delta view over two (frozen) concurrent indices: serial and parallel lookups see the values of both
+pub fn ccombined_ops<const N: usize>(s: &mut dyn Src, r: &mut Report) {
+   use ascent::internal::RelIndexCombined;
+   let (mut a, ma) = build_cri(&triples::<N>(s));
+   let (mut b, mb) = build_cri(&triples::<N>(s));
+   a.freeze();
+   b.freeze();
+   let c = RelIndexCombined::new(&a, &b);
+   let un = model_union(&ma, &mb);
+   let mut ok = true;
+   for k in 0..4u8 {
+      let got = c.index_get(&k).map(|it| sorted(it.cloned().collect()));
+      let cgot = c.c_index_get(&k).map(|it| sorted(it.cloned().collect()));
+      let want = un.get(&k).map(|v| sorted(v.clone()));
+      if got != want || cgot != want {
+         ok = false;
+      }
+   }
+   chk!(r, "ccombined_lookup_sees_values_of_both_indices_each_once", ok);
+   // iter_all / c_iter_all yield one entry per (index, key): merge per key before comparing
+   let mut acc = Model::new();
+   for (k, it) in c.iter_all() {
+      acc.entry(*k).or_default().extend(it.cloned());
+   }
+   let mut cacc = Model::new();
+   for (k, vs) in c.c_iter_all().map(|(k, it)| (*k, it.cloned().collect::<Vec<u8>>())).collect::<Vec<_>>() {
+      cacc.entry(k).or_default().extend(vs);
+   }
+   let norm = |m: &Model| m.iter().map(|(k, v)| (*k, sorted(v.clone()))).collect::<Vec<_>>();
+   chk!(r, "ccombined_iteration_returns_every_entry_of_both_once", norm(&acc) == norm(&un) && norm(&cacc) == norm(&un));
+   chk!(r, "ccombined_is_empty_is_sound", !RelIndexRead::is_empty(&c) || un.is_empty());
+}
+
 pub fn cri_merge<const N: usize>(s: &mut dyn Src, r: &mut Report) {
    let (mut new, mn) = build_cri(&triples::<N>(s));
    let (mut delta, md) = build_cri(&triples::<N>(s));
@@ -331,6 +364,7 @@ pub type Runner = fn(&mut dyn Src, &mut Report);
 pub fn registry() -> Vec<(&'static str, Runner, bool)> {
    vec![
       ("crelindex_ops_le2", (|s, r| cri_ops::<2>(s, r)) as Runner, false),
+      ("ccombined_ops_le2", (|s, r| ccombined_ops::<2>(s, r)) as Runner, false),
       ("crelindex_merge_le1", (|s, r| cri_merge::<1>(s, r)) as Runner, false),
       ("clatindex_ops_le2", (|s, r| cli_ops::<2>(s, r)) as Runner, false),
       ("cfull_ops_le2", (|s, r| cfull_ops::<2>(s, r)) as Runner, false),
